@@ -19,6 +19,12 @@ def run(tier, seed):
             step = 2 * (max(delay, 0) * mult + 1) + 2
             runs.append({"args": ["--c18", pat, "--step", str(step)], "env": env,
                          "tag": "d%d.dec%d.m%d.%s.%s" % (delay, dec, mult, pat, an)})
+            if delay > 0 and (not q or an == "default"):
+                runs.append({"args": ["--c18", pat, "--step", str(step), "--midclock"], "env": env,
+                             "tag": "d%d.dec%d.m%d.%s.%s.mid" % (delay, dec, mult, pat, an)})
+                if pat == "pages":    # the segment stays: nothing may be left pending when the free phase ended with expired purges
+                    runs.append({"args": ["--c18", pat, "--step", str(step), "--gentle"], "env": env,
+                                 "tag": "d%d.dec%d.m%d.%s.%s.gentle" % (delay, dec, mult, pat, an)})
     return osfam.run_os("C18", tier, seed, runs, builds=["rel"] if q else ["rel", "dbg"], own_guards=GUARDS, crash_decisive=False,
                         group=6,
                         extra_cov={"purge_delay": [-1, 0, 5, 10], "purge_decommits": [0, 1], "arena_purge_mult": [1, 10],
